@@ -388,7 +388,18 @@ class Resolver:
             for t in recv:
                 if t[0] == "inst":
                     ct.bound_self = True
-                    for m in prog.method_overrides(t[1], f.attr):
+                    cands = self.dispatch(t[1], f.attr)
+                    if isinstance(f.value, ast.Name) and f.value.id == "self" and fn.cls is not None and not fn.is_lambda \
+                            and not fn.is_static and fn.name in fn.cls.methods and fn.cls.methods[fn.name] is fn:
+                        # self.x() inside method m of class D: self's class is one that really inherits this m
+                        subs = [c for c in prog.all_subclasses(fn.cls) if c in self.instantiated() and prog.find_method(c, fn.name) is fn]
+                        if subs:
+                            cands = []
+                            for c in subs:
+                                m2 = prog.find_method(c, f.attr)
+                                if m2 is not None and m2 not in cands:
+                                    cands.append(m2)
+                    for m in cands:
                         if m not in widened:
                             widened.append(m)
                     stored = self.stored_callables().get((t[1].qualname, f.attr))
@@ -422,6 +433,44 @@ class Resolver:
             else:
                 ct.unresolved = True
         return ct
+
+    def instantiated(self) -> List[ClassInfo]:
+        """Classes constructed somewhere in the package (rapid type analysis)."""
+        if not hasattr(self, "_instantiated"):
+            inst: List[ClassInfo] = []
+            for mod in self.prog.modules.values():
+                for n in ast.walk(mod.tree):
+                    if isinstance(n, ast.Call) and isinstance(n.func, ast.Name):
+                        b = self.prog.lookup(mod, n.func.id)
+                        if b and b[0] == "class" and b[1] not in inst:
+                            inst.append(b[1])
+                    # classes stored in a list and called through a variable: for inv in [ET, DT, ES]: inv(...)
+                    seqs = []
+                    if isinstance(n, ast.List) and isinstance(n.ctx, ast.Load):
+                        seqs.append(n)
+                    if isinstance(n, ast.For) and isinstance(n.iter, ast.Tuple):
+                        seqs.append(n.iter)
+                    for sq in seqs:
+                        for e in sq.elts:
+                            if isinstance(e, ast.Name):
+                                b = self.prog.lookup(mod, e.id)
+                                if b and b[0] == "class" and b[1] not in inst:
+                                    inst.append(b[1])
+            self._instantiated = inst
+        return self._instantiated
+
+    def dispatch(self, ci: ClassInfo, name: str) -> List[FuncInfo]:
+        """Implementations ``x.name()`` may reach for static type ci: the instantiated subclasses (RTA);
+        falls back to all subclasses (CHA) when none of them is constructed inside the package."""
+        subs = [c for c in self.prog.all_subclasses(ci) if c in self.instantiated()]
+        if not subs:
+            return self.prog.method_overrides(ci, name)
+        out: List[FuncInfo] = []
+        for c in subs:
+            m = self.prog.find_method(c, name)
+            if m is not None and m not in out:
+                out.append(m)
+        return out
 
     def stored_callables(self) -> Dict[Tuple[str, str], List[FuncInfo]]:
         """(class qualname, attr) -> functions/lambdas stored in ``self.attr`` through a constructor
